@@ -305,6 +305,11 @@ def run(rep, rng, tier):
         n = len(xs)
         X, Y = np.array(xs, dtype=float), np.array(ys, dtype=float)
         base = {'values': xs, 'b': b}
+        if all(float(v).is_integer() for v in list(xs) + list(ys)) and rng.random() < 0.5:
+            # records stored as integers (digitiser counts): the functions must treat them as the same numbers
+            X, Y = X.astype(np.int64), Y.astype(np.int64)
+            base['dtype'] = 'int64'
+            tag += ',int64 record'
 
         def kin(j, zs):
             if e:
